@@ -10,7 +10,7 @@ while '--as' in args:
     i = args.index('--as'); as_n = args[i + 1]; del args[i:i + 2]
 prop, n = args[0], args[1]
 extra = args[2:]
-src = (src_root % prop) + '/' + n
+src = ((src_root % prop) + '/' + n) if src_root != 'KEPT' else ''
 n = as_n or n
 if src_root == 'KEPT':
     src = f'/verif/seeded/{prop}-{n}'          # re-confirm a change that is already kept (after fix: commits moved HEAD)
